@@ -9,6 +9,7 @@ CONSTANTS
   MaxOps = 40
   EmitMode = "none"
   HistViews = FALSE
+  OrderedBegin = FALSE
 VIEW View0
 INVARIANTS TypeOK NoDirty PrefixRule Complete
 CHECK_DEADLOCK FALSE
